@@ -50,6 +50,13 @@ pub fn atoms(l: L, core_only: bool) -> Vec<(String, bool)> {
             ("\u{ab}".into(), false),
             ("\u{2026}".into(), false),
             ("\u{2014}".into(), false),
+            // one more representative per Unicode category a text can contain
+            ("_".into(), false),
+            ("\u{20ac}".into(), false),
+            ("+".into(), false),
+            ("\u{2028}".into(), false),
+            ("\u{200b}".into(), false),
+            ("\u{feff}".into(), false),
         ]);
         match l {
             L::En => v.push(("o".into(), true)),
